@@ -10,6 +10,9 @@
                                     ./check <property> against it (VERIF_REPO); prints the verdict and
                                     stores it in /verif/seeded/<id>/detection.json
   tools/seeded.py runall            every directory under /verif/seeded
+  (run also accepts an absolute directory, e.g. /verif/harmless/<id>: behaviour-preserving
+   refactorings, where the expected verdict is "not detected"; `suite <dir>` only runs the
+   root test-suite with the patch)
 
 Scratch worktrees live under /tmp/vsw and are removed when done.
 """
@@ -135,7 +138,8 @@ def verify(d):
 
 
 def run(sid, tier="quick"):
-    d = os.path.join(ROOT, "seeded", sid)
+    d = sid if os.path.isabs(sid) else os.path.join(ROOT, "seeded", sid)
+    sid = os.path.basename(d.rstrip("/"))
     meta = json.load(open(os.path.join(d, "meta.json")))
     props = meta.get("check_properties") or [meta["property"]]
     name = "run-" + sid
@@ -169,6 +173,18 @@ if __name__ == "__main__":
     elif sys.argv[1] == "run":
         tier = sys.argv[sys.argv.index("--tier") + 1] if "--tier" in sys.argv else "quick"
         print(json.dumps(run(sys.argv[2], tier), indent=1))
+    elif sys.argv[1] == "suite":
+        d = os.path.abspath(sys.argv[2]); name = "suite-" + re.sub(r"\W", "_", d)[-40:]; wt = worktree(name)
+        try:
+            rc, out = sh(["git", "apply", os.path.join(d, "patch.diff")], cwd=wt)
+            res = {"apply": "ok" if rc == 0 else "FAILED: " + out[-300:]}
+            if rc == 0:
+                rc, out = sh("go build ./... && go build -tags verif ./... && go test -count=1 ./... 2>&1", cwd=wt, timeout=3000)
+                ok, bad, pk = suite_ok(out)
+                res["suite_with_patch"] = "pass" if ok else "FAIL"; res["suite_failures"] = {"tests": bad, "packages": pk}
+        finally:
+            drop(name)
+        print(json.dumps(res, indent=1))
     elif sys.argv[1] == "runall":
         for p in sorted(glob.glob(os.path.join(ROOT, "seeded", "*", "patch.diff"))):
             sid = os.path.basename(os.path.dirname(p))
